@@ -84,9 +84,8 @@ FALLBACK_OBS = ['C12.next_funding_factor_per_second']
 def extra(res, repo, tier, seed):
     import os, re
     s = open(os.path.join(repo, 'crates/model/src/action/update_funding_state.rs')).read()
-    for pat, what in [(r'\.delta_funding_amount_per_size\(is_long, is_long_collateral\)\s*\.to_signed\(\)\?', 'funding index delta added as a non-negative signed value'),
-                      (r'\.delta_claimable_funding_amount_per_size\(is_long, is_long_collateral\)\s*\.to_signed\(\)\?', 'claimable index delta added as a non-negative signed value'),
-                      (r'report\.delta_funding_amount_per_size\[payer\] = pack_to_funding_amount_per_size\(', 'payer delta computed by pack (rounded up)'),
+    # the two `.to_signed()?` anchors of the action are gone: UpdateFundingState::execute is a unit now
+    for pat, what in [(r'report\.delta_funding_amount_per_size\[payer\] = pack_to_funding_amount_per_size\(', 'payer delta computed by pack (rounded up)'),
                       (r'report\.delta_claimable_funding_amount_per_size\[receiver\] =\s*pack_to_funding_amount_per_size\(', 'receiver delta computed by pack (rounded down)')]:
         if not re.search(pat, s):
             res.undecided.append(f'anchor lost: update_funding_state.rs: {what} (/{pat}/ not found)')
